@@ -53,6 +53,7 @@ type Spec struct {
 	MaxSteps         int
 	Note             string // what the harness encodes (goes to evidence)
 	QuickOnly        bool
+	Arith            bool     // decimal / index arithmetic: z3 gets a short timeout and cvc5 (integer blasting) decides what it leaves open
 	HangCheck        bool     // a path over the step budget is a 'terminates' failure (confirmed natively under a timeout)
 	Asserts          []string // assertion-id prefixes that belong to this property (nil = all)
 	ThoroughOnly     bool
@@ -98,6 +99,8 @@ type harnessStats struct {
 	AssertsSeen   int64
 	AssertQ       int64
 	FeasQ         int64
+	FallbackQ     int64
+	FallbackTime  time.Duration
 	ModelHits     int64
 	Solver        solver.Stats
 	Funcs         map[string]bool
@@ -295,8 +298,8 @@ func runProperty(o *Options, specs []*Spec) (int, error) {
 		return 2, err
 	}
 	for _, hs := range all {
-		fmt.Printf("%s: paths=%d steps=%d units=%d asserts=%d assert-queries=%d feas-queries=%d model-hits=%d findings=%d validated=%d wall=%.1fs solver=%.1fs ends=%v\n",
-			hs.Spec.Name, hs.Paths, hs.Steps, hs.Units, hs.AssertsSeen, hs.AssertQ, hs.FeasQ, hs.ModelHits, len(hs.Findings), hs.Validated, hs.Wall.Seconds(), hs.Solver.Time.Seconds(), hs.Ends)
+		fmt.Printf("%s: paths=%d steps=%d units=%d asserts=%d assert-queries=%d feas-queries=%d model-hits=%d findings=%d validated=%d wall=%.1fs solver=%.1fs cvc5-fallback=%d/%.1fs ends=%v\n",
+			hs.Spec.Name, hs.Paths, hs.Steps, hs.Units, hs.AssertsSeen, hs.AssertQ, hs.FeasQ, hs.ModelHits, len(hs.Findings), hs.Validated, hs.Wall.Seconds(), hs.Solver.Time.Seconds(), hs.FallbackQ, hs.FallbackTime.Seconds(), hs.Ends)
 	}
 	if violations > 0 {
 		return 1, nil
@@ -480,6 +483,15 @@ func runHarness(o *Options, prog *load.Program, s *Spec) (*harnessStats, error) 
 		}
 	}
 	ex0.SetCutDepth(0)
+	if only := os.Getenv("VERIF_ONLY"); only != "" {
+		var keep []unit
+		for _, u := range units {
+			if strings.HasPrefix(prefixStr(u.prefix), only) {
+				keep = append(keep, u)
+			}
+		}
+		units = keep
+	}
 	hs.Units = len(units)
 	if o.Verbose {
 		fmt.Fprintf(os.Stderr, "%s: %d work units (depth %d), %d paths finished during enumeration\n", s.Name, len(units), depth, hs.Paths)
@@ -559,6 +571,9 @@ func runHarness(o *Options, prog *load.Program, s *Spec) (*harnessStats, error) 
 		hs.Solver.Errors += st.Errors
 		hs.Solver.Time += st.Time
 		hs.FeasQ += ex.FeasQueries
+		hs.FallbackQ += ex.FallbackQueries
+		hs.Solver.Unknown -= ex.FallbackResolved
+		hs.FallbackTime += ex.FallbackTime
 		hs.ModelHits += ex.ModelHits
 		for f := range ex.FuncsTouched {
 			hs.Funcs[f.String()] = true
@@ -612,6 +627,10 @@ func configure(ex *exec.Exec, s *Spec, params map[string]int) {
 	}
 	ex.PoolFork = s.PoolFork
 	ex.HangAsFailure = s.HangCheck
+	if s.Arith {
+		ex.ArithFallback = true
+		ex.SetSolverTimeout(1500)
+	}
 	if s.MaxSteps > 0 {
 		ex.MaxSteps = s.MaxSteps
 	}
